@@ -158,6 +158,12 @@ mut("C01-check-looks-at-other-king", "C01", "king-of-colour", (B, "            C
 mut("C01-filter-keeps-illegal", "C01", "predicate", (B, "        moves.retain(|mv| self.is_legal_move(*mv).is_ok());", "        moves.retain(|mv| self.is_legal_move(*mv).is_ok() || mv.is_castles);"))
 mut("C01-knight-dispatches-to-bishop", "C01", "Kind::get_moveset:Knight", ("src/board/piece.rs", "            Self::Knight(color) => Knight::get_moveset(square, board, color),", "            Self::Knight(color) => Bishop::get_moveset(square, board, color),"))
 
+# ---- later additions
+mut("C15-continue-skips-increment", "C15", "loop", (UC, "                \"searchmoves\" => {}", "                \"searchmoves\" => { continue; }"))
+mut("C06-subset-bit-from-mask-index", "C06", "subset-enum", ("src/board/piece.rs", "            if idx & (1 << i) != 0 {", "            if idx & (1 << (bitidx % 16)) != 0 {"))
+mut("C06-subset-loop-from-one", "C06", "subset-enum", ("src/board/piece.rs", "        for i in 0..bits {", "        for i in 1..bits {"))
+mut("C10-is-running-always-true", ["C10", "C09"], "is_running", (S, "        self.running.load(Ordering::Relaxed)\n", "        let _ = self.running.load(Ordering::Relaxed);\n        true\n"))
+
 if __name__ == "__main__":
     missing = []
     for m in M:
